@@ -675,6 +675,13 @@ func (a *act) eval(e env, v ssa.Value) AV {
 			}
 		}
 	case *ssa.BinOp:
+		switch t.Op {
+		case token.EQL, token.NEQ, token.LSS, token.LEQ, token.GTR, token.GEQ:
+			// a tracked pair is decided by the case under evaluation, whatever is known concretely on this path
+			if res := x.Rule.Compare(x, a.fr, t.Op, t.X, t.Y); res.K != avUnknown {
+				return res
+			}
+		}
 		l, r := a.eval(e, t.X), a.eval(e, t.Y)
 		switch t.Op {
 		case token.EQL, token.NEQ:
@@ -707,12 +714,6 @@ func (a *act) eval(e env, v ssa.Value) AV {
 				case token.GEQ:
 					return Bool(l.N >= r.N)
 				}
-			}
-		}
-		switch t.Op {
-		case token.EQL, token.NEQ, token.LSS, token.LEQ, token.GTR, token.GEQ:
-			if res := x.Rule.Compare(x, a.fr, t.Op, t.X, t.Y); res.K != avUnknown {
-				return res
 			}
 		}
 		return Unknown
